@@ -86,7 +86,7 @@ func newSys() *sys {
 	s := &sys{admitted: map[ikey]*gpbft.ECChain{}, asked: map[ikey]bool{}, inWanted: map[ikey]bool{}, wantedN: map[uint64]int{}, overflow: map[uint64]bool{}}
 	s.clk = clock.NewMock()
 	s.clk.Set(time.Unix(1_700_000_000, 0))
-	s.progress = gpbft.InstanceProgress{Instant: gpbft.Instant{ID: 5, Round: 0, Phase: gpbft.PREPARE_PHASE}, Input: chains["C1"]}
+	s.progress = gpbft.InstanceProgress{Instant: gpbft.Instant{ID: 5, Round: 0, Phase: gpbft.PREPARE_PHASE}, Input: cloneChain(chains["C1"])}
 	var err error
 	s.cx, err = chainexchange.NewPubSubChainExchange(
 		chainexchange.WithProgress(func() gpbft.InstanceProgress { return s.progress }),
@@ -122,8 +122,9 @@ func (s *sys) lookup(i uint64, k gpbft.ECChainKey, why string) {
 	want, adm := s.admitted[ik]
 	retained := s.inWanted[ik]
 	if found {
-		if got.Key() != k {
-			s.bad("lookup-returns-chain-with-other-key", "%s: lookup(instance %d, key %x) returned a chain whose key is %x", why, i, k[:4], keyShort(got))
+		// the key of what was returned is recomputed from its tipsets (the object's own key may be memoised)
+		if got.Key() != k || cloneChain(got).Key() != k {
+			s.bad("lookup-returns-chain-with-other-key", "%s: lookup(instance %d, key %x) returned a chain whose key is %x (recomputed from its tipsets: %x)", why, i, k[:4], keyShort(got), keyShort(cloneChain(got)))
 			return
 		}
 		if !adm {
@@ -141,15 +142,28 @@ func (s *sys) lookup(i uint64, k gpbft.ECChainKey, why string) {
 	s.ask(i, k)
 	if found {
 		s.inWanted[ik] = true
+		// the caller builds on what it got (a fork on top of the returned chain): chains are values, this must not
+		// reach into what the exchange holds
+		_ = got.Append(&gpbft.TipSet{Epoch: got.Head().Epoch + 1, Key: []byte("consumer-fork"), PowerTable: tcid})
 	}
+}
+
+func cloneChain(c *gpbft.ECChain) *gpbft.ECChain {
+	ts := make([]*gpbft.TipSet, len(c.TipSets))
+	for i, t := range c.TipSets {
+		x := *t
+		x.Key = append([]byte{}, t.Key...)
+		ts[i] = &x
+	}
+	return &gpbft.ECChain{TipSets: ts}
 }
 
 func keyShort(c *gpbft.ECChain) []byte { k := c.Key(); return k[:4] }
 
 func (s *sys) admit(i uint64, c *gpbft.ECChain, own bool) {
-	for _, p := range c.AllPrefixes() {
+	for _, p := range cloneChain(c).AllPrefixes() {
 		ik := ikey{i, p.Key()}
-		s.admitted[ik] = p
+		s.admitted[ik] = cloneChain(p)
 		if own {
 			s.ask(i, p.Key())
 		}
@@ -240,7 +254,9 @@ func (s *sys) apply(op string) {
 		}
 		s.lookup(inst, c.Key(), op)
 	case "own":
-		c := chains[f[2]]
+		// (every history works on its own copy of the chain objects it hands to the exchange: histories must not
+		// reach each other through shared backing arrays)
+		c := cloneChain(chains[f[2]])
 		s.cx.VerifOwnBroadcast(bg, chainexchange.Message{Instance: inst, Chain: c, Timestamp: s.clk.Now().UnixMilli()})
 		s.admit(inst, c, true)
 	case "rem":
